@@ -148,7 +148,7 @@ func runC17(c *fw.Ctx) {
 			fsBackend(fsopt{false, false, 0, false, "sha1", depth}),
 			fsBackend(fsopt{true, true, 1, true, "sha1", depth}),
 			fsBackend(fsopt{true, false, 20, false, "sha1", depth}),
-			fsBackend(fsopt{false, true, 1, false, "sha256", depth}),
+			fsBackend(fsopt{false, true, 1, false, "sha256", depth - 1}),
 			memBackend("sha256", depth-1),
 		}
 	} else {
